@@ -29,7 +29,7 @@ Section root.
   Lemma root_inv_step w s s' :
     wf s -> ready_inv g s -> root_inv s -> step_inv fx w s s' -> root_inv s'.
   Proof.
-    intros Hwf Hri Hro [t a e ok a' os ob Ha Hst Hact Hh Hmsg Herr _ _ _ _ _ (Hph & HuB & HuS & Hsv & _) _ _
+    intros Hwf Hri Hro [t a e ok a' os ob Ha Hst Hact Hh Hmsg Herr _ _ _ _ _ (Hph & HuB & HuS & Hsv & _) _ _ _
                        |Hact Hib Hh _ Hrq Hrs|ts _ Hact Hib Hh Hrq _ (Hph & HuB & HuS & Hsv & _) _].
     - destruct (Hwf t a Ha) as [Hid _]. split.
       + intros x Hin. rewrite Hh. apply elem_of_app. destruct (Herr x Hin) as [Hold|Hnew].
@@ -135,7 +135,7 @@ Section root.
           - intros s0 l s1 Hr0 IH He a1 Ha1 Hk1 h1 h2 Heq.
             pose proof (wf_reachable fx false g roots s0 Hr0) as Hwf0.
             assert (Hin : ObStart d ∈ hist s1) by (rewrite Heq; apply elem_of_app; right; apply elem_of_list_here).
-            destruct (exec_inv _ _ _ _ _ He) as [t0 a0 e ok a0' os ob Ha0 Hst Hact Hh _ _ _ _ _ _ _ _ _ _|Hact _ Hh _ _ _|ts _ Hact _ Hh _ _ _ _].
+            destruct (exec_inv _ _ _ _ _ He) as [t0 a0 e ok a0' os ob Ha0 Hst Hact Hh _ _ _ _ _ _ _ _ _ _ _|Hact _ Hh _ _ _|ts _ Hact _ Hh _ _ _ _].
             + rewrite Hact in Ha1. rewrite Hh in Hin. apply elem_of_app in Hin as [Hin|Hin].
               * apply elem_of_list_split in Hin as (k1 & k2 & Hk). destruct (decide (d = t0)) as [->|Hne].
                 -- rewrite lookup_insert in Ha1. injection Ha1 as <-.
